@@ -49,16 +49,6 @@ func checkC15(c *Ctx) {
 			c09LessTable(c, p, fn, idxF, "C15/R6")
 		}
 	}
-	if c.Tier == "thorough" {
-		for _, o := range []loadOpts{{env: []string{"GOOS=windows"}}, {env: []string{"GOARCH=386"}}} {
-			o.deep = true
-			p2 := mustLoad(c, o, pats...)
-			f2 := p2.Funcs(append(append([]string{}, c15Pkgs...), c15Ext...)...)
-			e2 := newEffects(p2, f2)
-			c15Maps(c, p2, e2, c15Reach(p2, e2, f2))
-			c15Goroutines(c, p2, e2)
-		}
-	}
 }
 
 // c15Reach: functions reachable from the benchstat command (static calls, closures, interface implementations, function values).
